@@ -33,7 +33,7 @@ partial def Val.show : Val → String
 
 def Err.show : Err → String
   | .typeError => "TypeError" | .keyError => "KeyError" | .indexError => "IndexError" | .queueEmpty => "Empty"
-  | .attributeError => "AttributeError" | .valueError => "ValueError" | .structError => "StructError" | .overflowError => "OverflowError" | .adbTimeout => "AdbTimeoutError" | .invalidCommand => "InvalidCommandError" | .invalidChecksum => "InvalidChecksumError" | .unsupported => "UNSUPPORTED"
+  | .attributeError => "AttributeError" | .valueError => "ValueError" | .structError => "StructError" | .overflowError => "OverflowError" | .adbTimeout => "AdbTimeoutError" | .invalidCommand => "InvalidCommandError" | .invalidChecksum => "InvalidChecksumError" | .adbCommandFailure => "AdbCommandFailureException" | .invalidResponse => "InvalidResponseError" | .unsupported => "UNSUPPORTED"
 
 def showM (r : M Val) : String :=
   match r with
